@@ -196,7 +196,7 @@ CLAIMED["C03"] = {
     "text": "Decides three structural clauses: (a) error discipline -- in crate compiler every call result that carries a diagnostic (Result with "
             "anyhow::Error / Vec<anyhow::Error> / pest errors) is propagated (`?`, returned, wrapped then propagated, collected) or replaced by another "
             "Err; a result whose Err case is discarded (.ok(), is_ok(), `if let Ok`, unused) is a violation unless allow-listed with a reason "
-            "(8 intentional discards); (b) order -- code generation is reachable only across the success edge of validation, output writing only "
+            "(9 intentional discards); (b) order -- code generation is reachable only across the success edge of validation, output writing only "
             "after compilation succeeded, `run` executes only after compile succeeded, and the CLI's compile wrapper turns any error list into Err "
             "(non-zero exit); (c) one guarded-by instance per typing rule the property names (19 instances: boolean conditions, annotated "
             "initialiser, re-assignment type, unary/binary operator support, unknown name, field/method existence, callable member, index "
